@@ -24,6 +24,14 @@ a set being iterated, joined, popped or handed to a function has a row in `model
 one of the site functions below). A new set-iteration site breaks this theorem. -/
 theorem sites_registered : sitesRegistered Gen.scannedSites = true := sites_registered_proof
 
+/-- **Scan obligation for cached values.** Every dict / list / set attribute of the classes whose
+instances live as long as a `Checker` (found by the AST scan of the live tree) has a row in
+`modelledCaches` saying whether its entries must be immutable after insertion (memo tables, the
+protocol cache: snapshotted by the harness after every program of a history), must be empty
+between checks, or are configuration / accumulators. A new per-Checker container breaks this
+theorem. -/
+theorem caches_registered : cachesRegistered Gen.scannedCaches = true := caches_registered_proof
+
 /-- `any(p(x) for x in S)`, `all(…)`, `for x in S: if p(x): return True` — full. -/
 theorem anyAll_order_free {α : Type} (p : α → Bool) :
     OrderFree (siteAny p) ∧ OrderFree (siteAll p) :=
@@ -250,8 +258,8 @@ theorem memo_key_must_determine :
     ≠ (memoStep (Q := Nat × Bool) (fun q => q.1) (fun _ => true) (fun q => some q.2) (fun _ => none)
       [] (0, false)).1 := by decide
 
-/-- Full statement for the protocol check: every answer equals the answer of a fresh checker
-(false: one exception class is left). -/
+/-- Full statement for the protocol check: every answer — verdict and bounds map — equals the
+answer of a fresh checker (false: one exception class is left). -/
 def cached_answer_valid : Prop :=
   ∀ (W : World) (fuel : Nat) (h : List Query) (q : Query), answerAfter W fuel h q = answerFresh W fuel q
 
@@ -262,8 +270,8 @@ def wGuard : World := ⟨[((1, 0, 1), [[.sub 2 0 2, .const false]]), ((2, 0, 2),
 assumption "P1 ← A" and is cached; P1 ← A then fails. A fresh checker rejects P2 ← B, the warmed
 one accepts it. (The cached pair is not in the greatest fixed point: `gfpCompat` is empty.) -/
 theorem cache_under_failed_assumption_witness :
-    answerAfter wGuard 5 [⟨false, 1, 0, 1⟩] ⟨false, 2, 0, 2⟩ = true ∧
-    answerFresh wGuard 5 ⟨false, 2, 0, 2⟩ = false ∧ gfpCompat wGuard false = [] := by decide
+    answerAfter wGuard 5 [⟨false, 1, 0, 1⟩] ⟨false, 2, 0, 2⟩ = some [] ∧
+    answerFresh wGuard 5 ⟨false, 2, 0, 2⟩ = none ∧ gfpCompat wGuard false = [] := by decide
 
 theorem cached_answer_valid_false : ¬ cached_answer_valid := by
   intro h
@@ -271,33 +279,86 @@ theorem cached_answer_valid_false : ¬ cached_answer_valid := by
   rw [cache_under_failed_assumption_witness.1, cache_under_failed_assumption_witness.2.1] at this
   cases this
 
-/-- **History independence of the protocol check, partial.** Outside the one class left — the
-world's nested checks are well-founded w.r.t. `rk` (`¬ D10_cyclic`: the recursion guard never
-fires) — and with fuel above the rank of every query, for *every* history, in any mix of the two
-modes and of the protocols' generic-argument variants, the answer is the structural one, hence the
-answer of a fresh checker. Proved by induction on the fuel with nested inductions over members and
-slots (`check_spec`) and induction over the history. -/
+/-- **Cache entries are immutable after insertion.** Whatever the world (recursive or not), the
+modes and the fuel: no operation of a later query — hit, guard, miss, nested checks, insertion —
+removes or changes a (key, bounds map) pair stored in the cache; the old cache is a suffix of the
+new one. For one query and, by induction, for any history. -/
+theorem cache_entries_immutable (W : World) (fuel : Nat) (st : St) :
+    (∀ (q : Query) (e : CKey × BMap), e ∈ st.cache → e ∈ (check W q.ex fuel st q.p q.a q.v).2.cache) ∧
+    (∀ (h : List Query) (e : CKey × BMap), e ∈ st.cache → e ∈ (runHist W fuel st h).cache) :=
+  ⟨fun q e he => (check_extends W q.ex fuel st q.p q.a q.v).mem e he,
+   fun h e he => (runHist_extends W fuel h st).mem e he⟩
+
+/-- **History independence of the protocol check, partial — verdict and bounds map.** Outside the
+one class left — the world's nested checks are well-founded w.r.t. `rk` (`¬ D10_cyclic`: the
+recursion guard never fires) — and with fuel above the rank of every query, for *every* history, in
+any mix of the two modes and of the protocols' generic-argument variants, the answer is the
+structural one `semB`: the same verdict and the same bounds map, list for list, as a fresh checker
+returns. Proved by induction on the fuel with nested inductions over members and slots
+(`check_spec`, whose invariant says every cached map is the structural map of its key) and
+induction over the history. -/
 theorem proto_history_independent_partial (W : World) (rk : Rank) (fuel : Nat) (h : List Query)
     (q : Query) (h1 : D10_cyclic W rk = false) (h4 : fuelOK W rk fuel (q :: h) = true) :
     answerAfter W fuel h q = answerFresh W fuel q ∧
-    answerFresh W fuel q = sem W q.ex fuel q.p q.a q.v := by
-  have ha := answerAfter_eq_sem W rk fuel h q h1 h4
-  have hf := answerAfter_eq_sem W rk fuel [] q h1
+    answerFresh W fuel q = semB W q.ex fuel q.p q.a q.v := by
+  have ha := answerAfter_eq_semB W rk fuel h q h1 h4
+  have hf := answerAfter_eq_semB W rk fuel [] q h1
     (by simp only [fuelOK, List.all_cons, Bool.and_eq_true] at h4 ⊢; exact ⟨h4.1, by simp⟩)
   exact ⟨by rw [ha]; exact hf.symm, hf⟩
 
-/-! Non-vacuity: a world with a nested protocol, an Any-typed member and two variants of the generic
-arguments satisfies the hypotheses; the history mixes modes and variants; both answers occur. -/
+/-- …and so is what the call machinery makes of it: the protocol's map unified with the bounds the
+other arguments of the call contribute (`pow(x, 2)`: `Literal[2] <= _E`). `callBounds` has no access
+to the checker state — `unifyBM` returns a new map — so the only way a call could depend on the
+history is through the answer, which it does not. -/
+theorem call_bounds_history_independent_partial (W : World) (rk : Rank) (fuel : Nat) (h : List Query)
+    (q : Query) (extra : BMap) (h1 : D10_cyclic W rk = false) (h4 : fuelOK W rk fuel (q :: h) = true) :
+    callBounds (answerAfter W fuel h q) extra = callBounds (answerFresh W fuel q) extra := by
+  rw [(proto_history_independent_partial W rk fuel h q h1 h4).1]
+
+/-! Non-vacuity: a world with a nested protocol, an Any-typed member, bounds on two type variables
+and two variants of the generic arguments satisfies the hypotheses; the history mixes modes and
+variants; both verdicts and a non-trivial bounds map occur. -/
 def wOk : World :=
-  ⟨[((0, 0, 0), [[.sub 1 0 1], [.anyOk]]), ((1, 0, 1), [[.const true]]), ((1, 0, 0), [[.const false]]),
-    ((0, 0, 1), [[.sub 1 0 0]]), ((0, 1, 0), [[.const false]])], []⟩
+  ⟨[((0, 0, 0), [[.sub 1 0 1, .bound 7 1], [.anyOk]]), ((1, 0, 1), [[.bound 7 2], [.bound 8 3]]),
+    ((1, 0, 0), [[.const false]]), ((0, 0, 1), [[.sub 1 0 0]]), ((0, 1, 0), [[.const false]])], []⟩
 def rkOk : Rank := rankOf [((0, 0), 1), ((0, 1), 1), ((1, 0), 0), ((1, 1), 0)]
 example : D10_cyclic wOk rkOk = false := by decide
 example : fuelOK wOk rkOk 3 [⟨true, 0, 0, 0⟩, ⟨false, 0, 0, 0⟩, ⟨false, 0, 1, 0⟩, ⟨false, 1, 0, 1⟩] = true := by
   decide
-example : answerAfter wOk 3 [⟨false, 0, 1, 0⟩, ⟨false, 1, 0, 1⟩] ⟨false, 0, 0, 0⟩ = true := by decide
-example : answerAfter wOk 3 [⟨false, 0, 0, 0⟩] ⟨true, 0, 0, 0⟩ = false := by decide
-example : answerAfter wOk 3 [⟨false, 0, 0, 0⟩] ⟨false, 0, 1, 0⟩ = false := by decide
+example : answerAfter wOk 3 [⟨false, 0, 1, 0⟩, ⟨false, 1, 0, 1⟩] ⟨false, 0, 0, 0⟩ = some [(7, [2, 1]), (8, [3])] := by
+  decide
+example : callBounds (answerAfter wOk 3 [⟨false, 1, 0, 1⟩] ⟨false, 0, 0, 0⟩) [(7, [9])] = some [(7, [2, 1, 9]), (8, [3])] := by
+  decide
+example : answerAfter wOk 3 [⟨false, 0, 0, 0⟩] ⟨true, 0, 0, 0⟩ = none := by decide
+example : answerAfter wOk 3 [⟨false, 0, 0, 0⟩] ⟨false, 0, 1, 0⟩ = none := by decide
+
+/-! ### Why `unify_bounds_maps` must return a new map (documentation of the aliasing defect)
+
+An implementation that aliases the first map's list into the result and extends it in place turns
+every call into a write to the cache. `callAliased` models that as what it is — a state change — and
+the witness shows the leak: the bound contributed by the other argument of an earlier call comes
+back in a later call. The code under check must behave like `callBounds`; the harness compares
+`unify_bounds_maps` with `unifyBM`, checks that it leaves its arguments alone, and snapshots the
+cache entries after every program of a history. -/
+
+/-- The defective call: the cached map of `key` is replaced by its unification with `extra`. -/
+def callAliased (st : St) (key : CKey) (extra : BMap) : Ans × St :=
+  match st.cache.lookup key with
+  | none => (none, st)
+  | some bm =>
+    let r := unifyBM [bm, extra]
+    (some r, { st with cache := st.cache.map fun e => if e.1 == key then (e.1, r) else e })
+
+/-- `_SupportsPow2[_E, _T_co] ← Fraction`: `_T_co` gets a bound from `__pow__`, `_E` an upper bound. -/
+def wPow : World := ⟨[((0, 0, 0), [[.bound 1 10, .bound 0 20]])], []⟩
+
+theorem aliased_unify_leaks_witness :
+    let st := (check wPow false 3 {} 0 0 0).2
+    -- pure: the second call sees only its own extra bound
+    callBounds (answerAfter wPow 3 [⟨false, 0, 0, 0⟩] ⟨false, 0, 0, 0⟩) [(0, [2])] = some [(1, [10]), (0, [20, 2])] ∧
+    -- aliased: after a call with extra bound 5 the cached map — and the next call — carry it
+    (callAliased (callAliased st (false, 0, 0, 0) [(0, [5])]).2 (false, 0, 0, 0) [(0, [2])]).1 =
+      some [(1, [10]), (0, [20, 5, 2])] := by decide
 
 /-! ### Regression: the two cache-key defects repaired by e01ac16 -/
 
@@ -319,14 +380,14 @@ theorem cache_respects_generic_arguments :
 /-- Before e01ac16 (`check2 false false false`: key = the other value only): accepted in normal
 mode, cached, replayed under `set_exclude_any` where a fresh checker rejects. -/
 theorem old_cache_ignores_mode_witness :
-    answerAfter2 wMode false false false 3 [⟨false, 0, 0, 0⟩] ⟨true, 0, 0, 0⟩ = true ∧
-    answerAfter2 wMode false false false 3 [] ⟨true, 0, 0, 0⟩ = false := by decide
+    answerAfter2 wMode false false false 3 [⟨false, 0, 0, 0⟩] ⟨true, 0, 0, 0⟩ = some [] ∧
+    answerAfter2 wMode false false false 3 [] ⟨true, 0, 0, 0⟩ = none := by decide
 
 /-- Before e01ac16: the positive answer for variant 0 of the generic arguments is replayed for
 variant 1. -/
 theorem old_proto_cache_key_witness :
-    answerAfter2 wArgs false false false 3 [⟨false, 0, 0, 0⟩] ⟨false, 0, 1, 0⟩ = true ∧
-    answerAfter2 wArgs false false false 3 [] ⟨false, 0, 1, 0⟩ = false := by decide
+    answerAfter2 wArgs false false false 3 [⟨false, 0, 0, 0⟩] ⟨false, 0, 1, 0⟩ = some [] ∧
+    answerAfter2 wArgs false false false 3 [] ⟨false, 0, 1, 0⟩ = none := by decide
 
 /-- The repair that was not applied (`check2 true true true`: nothing is cached while an assumption
 is in force) removes the remaining witness. -/
